@@ -181,12 +181,16 @@ Inductive call : Type :=
 (* what one clock answers during one steer_clocks: get_frequency(), max_frequency() *)
 Record clock_answers : Type := { ca_cur : float; ca_max : float }.
 
+(* what the filter absorbs for one steered clock *)
+Inductive change : Type :=
+| FreqChange (ch : float)        (* absorb_frequency_steer *)
+| OffsetChange (ch : float)      (* absorb_offset_change *)
+| SystemStep (d : Z).            (* absorb_system_clock_offset_change (Duration) *)
+
 (* the decision of steer_clocks for one clock: the offset is read from the filter as it
-   is BEFORE the time progression of this call (self.filter), the change is absorbed
-   into the progressed copy *)
-Definition steer_one (old : filter) (index : nat) (id : Z) (a : clock_answers)
-    (acc : filter * list call) : res (filter * list call) :=
-  let (flt, calls) := acc in
+   is BEFORE the time progression of this call (self.filter); the result is the call made
+   on the clock and the change absorbed into the progressed copy *)
+Definition steer_decision (old : filter) (index : nat) (id : Z) (a : clock_answers) : res (call * change) :=
   do ov <- f_clock_offset old id;
   let offset := fst ov in let offset_uncertainty := snd ov in
   if (offset <? 10)%float && (5 * offset_uncertainty <? offset)%float then
@@ -194,13 +198,23 @@ Definition steer_one (old : filter) (index : nat) (id : Z) (a : clock_answers)
     let frequency := fst fr in
     let wanted := (ca_cur a - frequency - offset / 8)%float in
     do actual <- f64_clamp wanted (- ca_max a)%float (ca_max a);
-    do flt' <- f_absorb_frequency_steer id (actual - ca_cur a)%float flt;
-    Ok (flt', calls ++ [SetFrequency id actual])
+    Ok (SetFrequency id actual, FreqChange (actual - ca_cur a)%float)
   else
     let step := duration_from_f64_seconds (- offset)%float in
-    do flt' <- (if (index =? 0)%nat then f_absorb_system id step flt
-                else f_absorb_offset_change id (- offset)%float flt);
-    Ok (flt', calls ++ [StepClock id step]).
+    Ok (StepClock id step, if (index =? 0)%nat then SystemStep step else OffsetChange (- offset)%float).
+
+Definition apply_change (id : Z) (chg : change) (flt : filter) : res filter :=
+  match chg with
+  | FreqChange ch => f_absorb_frequency_steer id ch flt
+  | OffsetChange ch => f_absorb_offset_change id ch flt
+  | SystemStep d => f_absorb_system id d flt
+  end.
+
+Definition steer_one (old : filter) (index : nat) (id : Z) (a : clock_answers)
+    (acc : filter * list call) : res (filter * list call) :=
+  do dc <- steer_decision old index id a;
+  do flt' <- apply_change id (snd dc) (fst acc);
+  Ok (flt', snd acc ++ [fst dc]).
 
 Fixpoint steer_loop (old : filter) (index : nat) (ids : list Z) (ans : list clock_answers)
     (acc : filter * list call) : res (filter * list call) :=
